@@ -780,6 +780,10 @@ func (f *fieldVM) setUnsupportedGetter() {
 		}
 		v := raw
 		for i := 0; i < f.ptrDeep; i++ {
+			// (an inner level of a multi-level pointer may be nil as well)
+			if v.Kind() == reflect.Ptr && v.IsNil() {
+				return nil
+			}
 			v = v.Elem()
 		}
 		for v.Kind() == reflect.Interface {
